@@ -21,10 +21,15 @@ def stages(tier, seed):
         c01_family("F20_c18", replay="C18C", fam="F20", leafs="F20_Leafs", comps="F20_Comps", inlines="F20_Inlines",
                    maxsel=2, maxnodes=5 if big else 4, maxdepth=3, dirs="DirsNone", outs="OT_Faults", inv=["Emit"]),
     ]
+    def keep(st):
+        # quick: the token-string family for (a) and the small document families for (b); thorough: everything
+        if big:
+            return True
+        return any(k in st["cfg"] for k in ("tok", "chr", "V4", "V3d", "V1_1f", "V5"))
     if c18a_stages:
-        out += c18a_stages(tier, seed)
+        out += [st for st in c18a_stages(tier, seed) if keep(st)]
     if c18b_stages:
-        out += c18b_stages(tier, seed)
+        out += [st for st in c18b_stages(tier, seed) if keep(st)]
     return out
 
 
